@@ -180,6 +180,9 @@ type pkgRef struct {
 
 // Ctx is the verification context of one function under contract.
 type Ctx struct {
+	tolerant     bool
+	clauseBroken string
+	staleClauses []string // loop clauses that did not apply to the code
 	groupOf  map[string]string
 	curGroup string
 	e      *Engine
@@ -237,10 +240,35 @@ func (c *Ctx) ordinal(kind string) int {
 
 func (c *Ctx) unsupported(format string, a ...any) {
 	msg := fmt.Sprintf(format, a...)
+	if c.tolerant {
+		// a loop clause that no longer fits the code (the function was restructured): the
+		// clause is dropped, the function's other obligations are still generated
+		c.clauseBroken = msg
+		return
+	}
 	c.notes = append(c.notes, msg)
 	if c.outside == "" {
 		c.outside = msg
 	}
+}
+
+// evalLoopClause evaluates an invariant / exit clause; ok is false when the clause does not
+// apply to the current code (it names variables or loop indices that do not exist here).
+func (c *Ctx) evalLoopClause(ie *Env, cl *Clause, st *State) (term string, ok bool) {
+	c.tolerant, c.clauseBroken = true, ""
+	defer func() {
+		c.tolerant = false
+		if r := recover(); r != nil {
+			term, ok = "true", false
+			c.staleClauses = append(c.staleClauses, fmt.Sprintf("%s: %v", cl.Text, r))
+		}
+	}()
+	term = ie.evalBool(cl.Expr, st)
+	if c.clauseBroken != "" {
+		c.staleClauses = append(c.staleClauses, fmt.Sprintf("%s: %s", cl.Text, c.clauseBroken))
+		return "true", false
+	}
+	return term, true
 }
 
 func (c *Ctx) trust(s string) {
